@@ -99,6 +99,20 @@ def run(tier, seed):
                     nd.blocks.pop(imp[0])
                 else:
                     nd.blocks.insert(0, {"k": "raw", "text": "from .fx import *"})
+            elif h % 5 == 0 and s == 3 and "a/hub.py" in cur:
+                # (fixed) the hub, whose valid buffer now differs from the file on disk in its imports, stops parsing:
+                # its last valid contents - the buffer, not the file - go on deciding what it re-exports
+                p = "a/hub.py"
+                nd = cur[p].clone(); kind = "break"
+                nd.broken = True
+            elif h % 5 == 0 and s == 4 and "a/hub.py" in cur:
+                # (fixed) … and stays that way while ANOTHER file is edited (every memo keyed on the index version is
+                # recomputed after this step)
+                others = [q for q in paths if q != "a/hub.py" and not cur[q].broken]
+                if others:
+                    p = others[0]
+                    nd, kind = cur[p].clone(), "touch"
+                    nd.blocks.append({"k": "raw", "text": "TOUCHED_%d = 1" % h})
             kinds.append(kind)
             cur[p] = nd
             t, _ = nd.render()
